@@ -86,6 +86,14 @@ def check(ctx):
     ctx.obs[before:] = [o for o in ctx.obs[before:] if "KIND-S2D" in o.rule or o.status != "HOLDS"]
     for o in ctx.obs[before:]:
         o.rule = o.rule.replace("C05.a KIND-S2D", "C11.b LABELS-NOT-POSITIONS (C05.a)")
+    # whatever the column names: the dense output of the subset detectors has one label column per input column, by position
+    from . import c16
+
+    before = len(ctx.obs)
+    ctx.guard("C11.b COLUMNS-BY-POSITION", "SubsetCollectiveAnomalyDetector", lambda: c16.check_dense(ctx))
+    ctx.obs[before:] = [o for o in ctx.obs[before:] if o.key == "frame" or o.status == "UNDECIDED"]
+    for o in ctx.obs[before:]:
+        o.rule = o.rule.replace("C16.c DENSE-MARK", "C11.b COLUMNS-BY-POSITION (C16.c DENSE-MARK)")
     ctx.guard("C11.d FLOAT-KERNEL", "accumulators", lambda: check_float(ctx))
     ctx.guard("C11.e AS-2D", "as_2d_array", lambda: check_as_2d(ctx))
     # results are a function of the VALUES handed to this call: no cache keyed on the index / container of an earlier one
